@@ -59,7 +59,8 @@ func goMode(v uint32) fs.FileMode {
 
 // RealCase is a case directory on the real filesystem.
 type RealCase struct {
-	Tmp   string // temp dir
+	Top   string // what MkdirTemp created (removed at Close)
+	Tmp   string // the directory that stands for the model's disk root: Top + padding
 	Root  string // Tmp + modelRoot
 	Start time.Time
 }
@@ -73,7 +74,14 @@ func newRealCase() (*RealCase, error) {
 	if rp, err := filepath.EvalSymlinks(tmp); err == nil {
 		tmp = rp
 	}
-	rc := &RealCase{Tmp: tmp, Root: tmp + modelRoot}
+	top := tmp
+	// padding: a link that climbs above the model's disk root (where ".." stays at the root) ends up
+	// in these empty directories on the real side, never in the shared /tmp
+	tmp = top + "/p/p/p/p/p/p"
+	if err := os.MkdirAll(tmp, 0o755); err != nil {
+		return nil, err
+	}
+	rc := &RealCase{Top: top, Tmp: tmp, Root: tmp + modelRoot}
 	if err := os.MkdirAll(rc.Root, 0o755); err != nil {
 		return nil, err
 	}
@@ -86,13 +94,13 @@ func newRealCase() (*RealCase, error) {
 
 func (rc *RealCase) Close() {
 	// make everything removable regardless of the modes the case set
-	_ = filepath.Walk(rc.Tmp, func(p string, info fs.FileInfo, err error) error {
+	_ = filepath.Walk(rc.Top, func(p string, info fs.FileInfo, err error) error {
 		if err == nil && info.IsDir() {
 			_ = os.Chmod(p, 0o755)
 		}
 		return nil
 	})
-	_ = os.RemoveAll(rc.Tmp)
+	_ = os.RemoveAll(rc.Top)
 }
 
 // Build creates the entries below sub (e.g. "/base"), parents first, then applies metadata
